@@ -1760,6 +1760,17 @@ func (c *Ctx) c6Case(s *c6Scene, glb bool, tag string) {
 	if !big {
 		c.c6TopoLines(s, st, &o, binTok)
 	}
+	if !glb && len(o.bin) <= 3000 {
+		// round 2: the data URI itself (Model/Base64: encoder compared exactly, strict decoder run on the real URI)
+		uri := "none"
+		if len(o.doc.Buffers) == 1 {
+			uri = "u" + o.doc.Buffers[0].URI
+		}
+		c.Emit("c06.uri", st, uri)
+		if uri != "none" {
+			c.Emit("c06.holds.uridecode", uri+" h"+hex.EncodeToString(o.bin), "true")
+		}
+	}
 	if glb && !big {
 		// the JSON text itself is not modelled (and not even deterministic: extensionsUsed comes out of a Go map):
 		// the file's own JSON chunk, stripped of its padding, is handed over; the model frames it with ITS buffer
